@@ -146,6 +146,12 @@ def sqlite_backend(repo):
     groups.append(_grp("sqlite/rollback-and-reraise-on-error", "proved" if (rb and re_raise) else "refuted",
                        "except-handler rolls back and re-raises" if (rb and re_raise) else "no rollback / exception swallowed",
                        fkey))
+    prag = [q for k, q in stmts if q.strip().startswith("PRAGMA") and "USER_VERSION" not in q]
+    allsrc = ast.unparse(fn).upper() + " ".join(str(getattr(v, "value", "")) for v in consts.values()).upper()
+    risky = [w for w in ("JOURNAL_MODE", "SYNCHRONOUS", "LOCKING_MODE") if w in allsrc]
+    groups.append(_grp("sqlite/default-rollback-journal-kept", "unknown" if (prag or risky) else "proved",
+                       f"PRAGMAs that change the journalling: {prag or risky}" if (prag or risky) else
+                       "no PRAGMA other than user_version: SQLite's rollback journal protects the previous row", fkey))
     groups.append(_grp("sqlite/commit-is-last", "proved" if stmts and stmts[-1][0] == "commit" else "refuted",
                        "the single commit is the last statement of the try block", fkey))
     return groups
